@@ -62,51 +62,50 @@ def name_tests(fn, R=None):
 
 
 def update_table(ctx, prog, rule):
+    """per record name: which bound fields are updated, from which value.  Decided per name on the CFG pruned under the
+    assumption `p.name == Name` (so it does not matter whether the names are tested with ==, match, or-patterns, or
+    whether one update call serves several names through a selected pair of references)."""
+    from simple_rules import assume_record_name, fn_view
+    import elems
     f = prog.fn(ADD)
     ctx.fn_seen(f)
-    R = Resolver(f)
-    tests = name_tests(f, R)
+    variants = [v["name"] for v in prog.adt("record::RecordName")["variants"]]
+    R0 = Resolver(f)
+    n_sites = len([1 for bi, t in f.calls(lambda c, t: c in ("pc_writer::update_min", "pc_writer::update_max"))])
     got = {}
-    n_sites = 0
-    for bi, t in f.calls(lambda c, t: c in ("pc_writer::update_min", "pc_writer::update_max")):
-        n_sites += 1
-        kind = callee_of(t).rsplit("_", 1)[-1]
-        val = strip(R.operand(t["args"][0]))
-        tgt = strip(R.operand(t["args"][1]))
-        # which single name test guards this call (its true edge is the only way in)
-        guards = []
-        for tb, v, sw, tr, fa in tests:
-            g = cfg_without_edges(f, [(sw, tr)])
-            if bi not in reach(g, [0]):
-                guards.append(v)
-        fld = tgt[2] if tgt[0] == "field" else tree_str(tgt)
-        holder = None
-        if tgt[0] == "field":
-            b = strip(tgt[1])
-            if b[0] == "call" and b[1].endswith("Option::<T>::as_mut"):
-                holder = self_field(b[2][0])
-            else:
-                holder = self_field(b)
-        conv = val[1].rsplit("::", 1)[-1] if val[0] == "call" else tree_str(val)
-        # value = values[i].to_x(&p.data_type) with the loop's own i / p
-        src_ok = False
-        if val[0] == "call" and conv in ("to_f64", "to_i64"):
-            import elems
-            ev, ed = elems.elem_of(val[2][0]), elems.elem_of(val[2][1])
-            src_ok = (ev is not None and ed is not None and strip(ev[0]) == ("param", 2) and ev[1] == []
-                      and is_self_field(strip(ed[0]), "prototype") and ed[1] == ["data_type"] and elems.same_position(ev, ed))
-        key = guards[0] if len(guards) == 1 else "|".join(guards) or "?"
-        got.setdefault(key, {})[kind] = (holder, fld, conv, src_ok)
-    n_ok = 0
+    for name in variants:
+        g = assume_record_name(f, name, variants, R0)
+        v = fn_view(f, g)
+        R = Resolver(v)
+        for bi, t in v.calls(lambda c, t: c in ("pc_writer::update_min", "pc_writer::update_max")):
+            if bi not in v.cfg():
+                continue
+            kind = callee_of(t).rsplit("_", 1)[-1]
+            val = strip(R.operand(t["args"][0]))
+            tgt = strip(R.operand(t["args"][1]))
+            fld = tgt[2] if tgt[0] == "field" else tree_str(tgt)
+            holder = None
+            if tgt[0] == "field":
+                b = strip(tgt[1])
+                if b[0] == "call" and b[1].endswith("Option::<T>::as_mut"):
+                    holder = self_field(b[2][0])
+                else:
+                    holder = self_field(b)
+            conv = val[1].rsplit("::", 1)[-1] if val[0] == "call" else tree_str(val)
+            src_ok = False
+            if val[0] == "call" and conv in ("to_f64", "to_i64"):
+                ev, ed = elems.elem_of(val[2][0]), elems.elem_of(val[2][1])
+                src_ok = (ev is not None and ed is not None and strip(ev[0]) == ("param", 2) and ev[1] == []
+                          and is_self_field(strip(ed[0]), "prototype") and ed[1] == ["data_type"] and elems.same_position(ev, ed))
+            got.setdefault(name, {}).setdefault(kind, []).append((holder, fld, conv, src_ok))
     for name, (holder, fmin, fmax, conv) in WANT.items():
-        g = got.get(name, {})
-        ok = g.get("min") == (holder, fmin, conv, True) and g.get("max") == (holder, fmax, conv, True)
-        n_ok += ok
+        g_ = got.get(name, {})
+        ok = g_.get("min") == [(holder, fmin, conv, True)] and g_.get("max") == [(holder, fmax, conv, True)]
         ctx.ob(rule, "bound-update/%s" % name, ok,
-               "%s: update_min -> %s, update_max -> %s (must be %s.%s / %s.%s from values[i].%s(&prototype[i].data_type), no cast in between)" % (name, g.get("min"), g.get("max"), holder, fmin, holder, fmax, conv), where="src/pc_writer.rs")
+               "%s: update_min -> %s, update_max -> %s (must be %s.%s / %s.%s from values[i].%s(&prototype[i].data_type), no cast in between)" % (name, g_.get("min"), g_.get("max"), holder, fmin, holder, fmax, conv), where="src/pc_writer.rs")
     extra = sorted(set(got) - set(WANT))
-    ctx.ob(rule, "bound-update/no-others", not extra, "bound updates under other guards: %s" % extra, nontrivial=False)
-    ctx.floor(rule, "update_min/update_max call sites", n_sites, 18)
+    ctx.ob(rule, "bound-update/no-others", not extra, "bound updates for other record names: %s" % extra, nontrivial=False)
+    ctx.floor(rule, "update_min/update_max call sites", n_sites, 2, semantic=False)
 
 
 def orientation(ctx, prog, rule):
@@ -135,7 +134,7 @@ def orientation(ctx, prog, rule):
         for b_, s_ in stores:
             tv = strip(R.rvalue(f.blocks[b_]["stmts"][s_]["rv"]))
             okv = okv and tv[0] == "agg" and tv[1][2] == "Some" and strip(tv[2][0]) == ("param", 1)
-        ctx.ob(rule, "orientation/%s" % name, okc and okn and okv and len(stores) == 2,
+        ctx.ob(rule, "orientation/%s" % name, okc and okn and okv and len(stores) >= 1,
                "%s replaces the bound exactly when current %s value, stores on None, stores the value itself: compare=%s none=%s value=%s stores=%d" % (name, ">" if cmp_name == "gt" else "<", okc, okn, okv, len(stores)))
 
 
